@@ -345,7 +345,23 @@ def build(tree, rec: Rec):
                 # the public convenience constructor, on half of the eligible shapes
                 return ModularEnvironment.from_dict(mapping({n: sensor(c) for n, c in e[1][1]}),
                                                     mapping({n: actuator(c) for n, c in e[2][1]}))
-            return ModularEnvironment(sensor(e[1]), actuator(e[2]))
+            s_obj, a_obj2 = sensor(e[1]), actuator(e[2])
+            if (len(str(e[1])) + len(str(e[2]))) % 3 == 0:
+                # the parts are put in place after the environment was built (`env.sensor = calibrated(env.sensor)`):
+                # the public attributes `sensor` / `actuator` are what counts, for data and for events alike
+                from pamiq_core.interaction.modular_env import Actuator as _A, Sensor as _S
+
+                class _NoSensor(_S):
+                    def read(self):
+                        raise AssertionError("the placeholder sensor was used")
+
+                class _NoActuator(_A):
+                    def operate(self, action):
+                        raise AssertionError("the placeholder actuator was used")
+                m = ModularEnvironment(_NoSensor(), _NoActuator())
+                m.sensor, m.actuator = s_obj, a_obj2
+                return m
+            return ModularEnvironment(s_obj, a_obj2)
         return EnvironmentWrapper(env(e[1]), wrap(e[2]), wrap(e[3]))
 
     a_obj = agent(tree[1])
